@@ -13,11 +13,11 @@ LEVEL = "other"
 RULE_TEXT = ("loops and may-panic sites of the BVH code (construction and traversal), the node-list construction sites, the six min/max accumulators of "
              "WallGeom::aabb and AABB::join, and the order box test -> polygon test in Occluder::intersects")
 EXPLANATION = ("D1 every loop of the BVH construction/traversal is pop-only, iterator-driven or a worklist whose pushes are dominated by a progress test; "
-               "D2 no unguarded may-panic site under the premise 'elements may be empty', and the node-list construction sites have the shape the "
-               "consumer relies on; D3 bounding boxes are built by min/max over every polygon point with matching coordinates; D4 a box miss returns None "
+               "D2 no unguarded may-panic site under the premise 'elements may be empty', the node-list construction sites have the shape the "
+               "consumer relies on, and every entry that carries elements is consumed (the entries the consumer's loop leaves behind carry none, or are taken after it); D3 bounding boxes are built by min/max over every polygon point with matching coordinates; D4 a box miss returns None "
                "before the polygon is tested and the polygon test's answer is returned")
 DECIDED = ["D1 construction terminates", "D2 construction is total on every size including none", "D3 boxes contain their corners (accumulator shape)", "D4 box test before polygon test"]
-UNDECIDED = ["accelerated answer = exhaustive answer (e.g. whether a single-leaf tree is kept as root)", "exact ray/polygon geometry", "reveal surface extents"]
+UNDECIDED = ["accelerated answer = exhaustive answer beyond the producer/consumer agreement on the node list", "exact ray/polygon geometry", "reveal surface extents"]
 ASSUMPTIONS = ["f32::min/max semantics; nalgebra point construction"]
 LEVEL_TEXT = ("Partial: four necessary conditions of the ray-casting property are decided from the code's shape - the build loops terminate (worklist pushes are "
               "guarded by a both-halves-non-empty test), no construct in the build can panic for any element list including the empty one, every bounding "
@@ -189,6 +189,63 @@ def run(ctx):
                 ctx.violation("c13.protocol", k2, "; ".join(probs) + ": build_from_node_list unwraps these fields", gen.loc(s.get("ln")))
             else:
                 ctx.ok("c13.protocol", k2, "TreeElement(%s) parent=%s elems=%s" % (ntype, show(parent)[:20], show(elems)[:20]), gen.loc(s.get("ln")))
+    # producer/consumer agreement on the node list: the consumer pops from the back while `len > c` and then reads only `completed`;
+    # unless it also takes what is left, the first c entries the producer pushed are never consumed, so they must carry no elements
+    cons = prog.find("energy::raytracing::bvh::BVH::<T>::build_from_node_list")
+    csc = Scope(prog, cons)
+    keep = None
+    loop_blocks = set()
+    for h, blks in cons.body.loops().items():
+        loop_blocks |= set(blks)
+    for b in range(cons.body.n):
+        t = cons.body.blocks[b]["term"]
+        if t["t"] == "switch" and b in loop_blocks:
+            nn = strip(csc.operand(t["d"]))
+            if nn[0] == "bin" and nn[1] in ("Gt", "Ge", "Ne") and "len(" in show(nn) and leaf_name(strip(strip(nn[2])[2][0]) if strip(nn[2])[0] == "call" else ("k",)) == "node_list" \
+                    and strip(nn[3])[0] == "k":
+                c = int(strip(nn[3])[1])
+                keep = c if nn[1] in ("Gt", "Ne") else max(c - 1, 0)
+        if t["t"] == "switch" and b in loop_blocks:
+            nn = strip(csc.operand(t["d"]))
+            if nn[0] == "un" and nn[1] == "Not" and "is_empty(node_list" in show(nn):
+                keep = 0
+    ctx.require(keep is not None, "build_from_node_list: the loop condition on node_list.len() was not found")
+    # reads of node_list after the loop (pop / remove / into_iter / index / first / last / drain ..) take the remainder
+    after = []
+    for b, t in cons.body.calls():
+        if b in loop_blocks:
+            continue
+        nm = short_callee(callee_name(t) or "")
+        if nm in ("pop", "remove", "swap_remove", "into_iter", "drain", "first", "last", "index", "get", "iter", "pop_front") and t["args"]:
+            if leaf_name(strip(csc.operand(t["args"][0]))) == "node_list" and any(cons.body.dominates(lb, b) for lb in loop_blocks):
+                after.append(nm)
+    left = 0 if after else keep
+    firsts = []
+    pushes = []
+    for b, t in gen.body.calls():
+        if short_callee(callee_name(t) or "") == "push" and t["args"] and leaf_name(strip(sc.operand(t["args"][0]))) == "node_list":
+            pushes.append((b, t))
+    for (b, t) in pushes:
+        if not any(b2 != b and gen.body.dominates(b2, b) for (b2, _) in pushes):
+            firsts.append((b, t))
+    ctx.require(len(pushes) >= 2 and firsts, "generate_node_list: pushes onto node_list not found")
+    for (b, t) in firsts:
+        val = strip(sc.operand(t["args"][1]))
+        ops = [strip(o) for o in val[3]] if val[0] == "agg" else []
+        elems = ops[4] if len(ops) == 5 else None
+        ntype = show(ops[1]).split("{")[0] if len(ops) == 5 else "?"
+        key = "c13.protocol|first-entry|%s" % ntype.split("::")[-1]
+        carries = elems is not None and elems[0] == "agg" and elems[1].endswith("::Some")
+        if left >= 1 and carries:
+            ctx.violation("c13.protocol", key, "when this is the only entry of the node list (at most max_num_elements obstacles) build_from_node_list never takes it: its loop runs "
+                          "while node_list.len() > %d and afterwards only `completed` is read, so the leaf's elements are dropped, the tree has no root and no ray is ever "
+                          "reported as blocked - the accelerated answer differs from testing the obstacles one by one for every small obstacle set" % keep, gen.loc(t.get("ln")))
+        else:
+            ctx.ok("c13.protocol", key, "the entry that can be first in the node list %s" % ("carries no elements" if not carries else "is taken by the consumer after its loop (%s)" % ",".join(after)),
+                   gen.loc(t.get("ln")))
+    # D5 reveal surfaces of set-back windows (exact symbolic geometry, ctecheck/rules/_reveal.py)
+    from ._reveal import check_reveals
+    check_reveals(ctx, "c13.reveal", "c13.reveal")
     # D3: who builds boxes.  The accumulator shape is decided for WallGeom::aabb and AABB::join (below); AABB::new and Default only store
     # their arguments.  Any other function that constructs an AABB is a box constructor this rule has not read: cannot decide (exit 2).
     from .. import support as S
